@@ -81,8 +81,11 @@ def coverage(
         The amount of code used by at least one platform, as a percentage.
         If `setmap` contains no lines of code or no platforms, returns NaN.
     """
-    if not platforms:
+    if platforms is None:
         platforms = set().union(*setmap.keys())
+
+    if len(platforms) == 0:
+        return float("nan")
 
     used = 0
     total = 0
@@ -123,7 +126,7 @@ def average_coverage(
         The average amount of code used by each platform, as a percentage.
         If `setmap` contains no lines of code or no platforms, returns NaN.
     """
-    if not platforms:
+    if platforms is None:
         platforms = set().union(*setmap.keys())
 
     if len(platforms) == 0:
